@@ -160,7 +160,8 @@ struct Final {
 fn run_history(h: &Hist, hi: usize, ctx: &mut Ctx) -> Result<Final, Violation> {
     set_hash_seed(h.seed);
     ctx.fault("hostile_hash_seed");
-    let mut sum = Summary::new();
+    // half of the histories start from Default, the other constructor
+    let mut sum = if h.seed % 2 == 0 { Summary::default() } else { Summary::new() };
     let mut model = Entry::new();
     let mut distinct_before = 0usize;
     for (oi, op) in h.ops.iter().enumerate() {
